@@ -30,6 +30,61 @@ def _roundtrip_overrides():
     return ov
 
 
+def _rename_overrides():
+    """Every assigned local of every function in the package (not parameters, not global/nonlocal names) alpha-renamed."""
+    import ast
+    from ..model import REPO
+    class Renamer(ast.NodeTransformer):
+        """alpha-rename the assigned locals of every function (not parameters, not global/nonlocal names)"""
+        def visit_FunctionDef(self, node):
+            # first transform nested functions
+            self.generic_visit(node)
+            params=set()
+            for sub in ast.walk(node):
+                if isinstance(sub,(ast.FunctionDef,ast.AsyncFunctionDef,ast.Lambda)):
+                    a=sub.args
+                    for x in a.posonlyargs+a.args+a.kwonlyargs: params.add(x.arg)
+                    if a.vararg: params.add(a.vararg.arg)
+                    if a.kwarg: params.add(a.kwarg.arg)
+            banned=set(params)
+            for sub in ast.walk(node):
+                if isinstance(sub,(ast.Global,ast.Nonlocal)): banned|=set(sub.names)
+                if isinstance(sub,(ast.FunctionDef,ast.AsyncFunctionDef,ast.ClassDef)) and sub is not node: banned.add(sub.name)
+                if isinstance(sub,(ast.Import,ast.ImportFrom)):
+                    for al in sub.names: banned.add((al.asname or al.name).split('.')[0])
+            stored=set()
+            for sub in ast.walk(node):
+                if isinstance(sub,ast.Name) and isinstance(sub.ctx,(ast.Store,ast.Del)) and sub.id not in banned and not sub.id.startswith('__'):
+                    stored.add(sub.id)
+                if isinstance(sub,ast.ExceptHandler) and sub.name and sub.name not in banned: stored.add(sub.name)
+            if not stored: return node
+            m={n:n+'_rn' for n in stored if not n.endswith('_rn')}
+            for sub in ast.walk(node):
+                if isinstance(sub,ast.Name) and sub.id in m: sub.id=m[sub.id]
+                if isinstance(sub,ast.ExceptHandler) and sub.name in m: sub.name=m[sub.name]
+                if isinstance(sub,ast.MatchAs) and sub.name in m: sub.name=m[sub.name]
+                if isinstance(sub,ast.MatchStar) and sub.name in m: sub.name=m[sub.name]
+            return node
+        visit_AsyncFunctionDef=visit_FunctionDef
+
+    ov = {}
+    for root, _, files in os.walk(os.path.join(REPO, "openpectus")):
+        if os.sep + "test" in root:
+            continue
+        for f in files:
+            if f.endswith(".py"):
+                p = os.path.join(root, f)
+                try:
+                    t = Renamer().visit(ast.parse(open(p, encoding="utf-8").read()))
+                    ast.fix_missing_locations(t)
+                    new = ast.unparse(t)
+                    compile(new, p, "exec")
+                    ov[os.path.relpath(p, REPO)] = new
+                except (SyntaxError, OSError):
+                    pass
+    return ov
+
+
 def _run_variant(args):
     prop, variant = args
     from ..model import Program, AnchorError, REPO
@@ -47,6 +102,14 @@ def _run_variant(args):
             except AnchorError as ex:
                 return "anchor: " + str(ex)[:150]
             return {(fd.rule, fd.function, fd.construct) for fd in ctx.findings}
+        if variant["roundtrip"] == "rename":
+            a, b = fnd({}), fnd(_rename_overrides())
+            # construct texts legitimately contain local names: compare (rule, function) multisets
+            if isinstance(a, set) and isinstance(b, set):
+                a, b = sorted((r, fn) for r, fn, c in a), sorted((r, fn) for r, fn, c in b)
+            if a == b:
+                return variant["id"], "silent", ""
+            return variant["id"], "false-alarm", f"findings differ after renaming every local variable: {str(a)[:90]} vs {str(b)[:140]}"
         a, b = fnd({}), fnd(_roundtrip_overrides())
         if a == b:
             return variant["id"], "silent", ""
@@ -110,6 +173,8 @@ def run_audit(props: list[str] | None = None, jobs: int = 16) -> dict:
         if props is None or pr in props:
             todo.append((pr, dict(id=f"{pr}-reformat-all", prop=pr, kind="equivalent", roundtrip=True, expect="", file="", find="",
                                   replace="", why="every source file re-emitted by ast.unparse (comments, line numbers, quoting change)")))
+            todo.append((pr, dict(id=f"{pr}-rename-locals", prop=pr, kind="equivalent", roundtrip="rename", expect="", file="", find="",
+                                  replace="", why="every assigned local variable of every function alpha-renamed")))
     t0 = time.time()
     results = []
     if todo:
